@@ -3,7 +3,7 @@ C05: what the specifications of the operation table mean on stores, and the proo
 program that passes the static check of a specification has that meaning for every store and
 every operand layout.  Core Lean only.
 -/
-import PyttbModel.Lemmas.HeapTable
+import PyttbModel.Lemmas.HeapTable2
 import PyttbModel.Lemmas.HeapContig
 namespace Pyttb.Heap
 
